@@ -1,0 +1,381 @@
+//go:build verif
+
+package goatlang
+
+// Verification hooks (build tag "verif"): exported wrappers around unexported
+// internals so that a harness outside the package can drive single layers.
+// Add-only; nothing here is compiled without the tag.
+
+import (
+	"fmt"
+	"io/fs"
+	"strings"
+)
+
+// ---- values ----------------------------------------------------------------
+
+func VerifMake(tag int, num float64) Value { return Value{t: Type(tag), num: num} }
+func VerifTag(v Value) int                 { return int(v.t) }
+func VerifNum(v Value) float64             { return v.num }
+func VerifHasObj(v Value) bool             { return v.value != nil }
+func VerifSameObject(a, b Value) bool      { return a.value == b.value }
+func VerifTypeStr(vm *VM, v Value) string  { return v.t.str(vm.globals) }
+func VerifAssign(v Value, tag int) Value   { return v.assign(Type(tag)) }
+func VerifConvert(v Value, tag int) Value  { return v.convert(Type(tag)) }
+func VerifNewZero(tag int) Value           { return newZero(Type(tag)) }
+func VerifNewUntyped(n int) Value          { return newUntypedInt(n) }
+func VerifMixType(a, b int) int            { return int(mixType(Type(a), Type(b))) }
+func VerifSliceType(t int) int             { return int(sliceType(Type(t))) }
+func VerifMapType(k, v int) int            { return int(mapType(Type(k), Type(v))) }
+func VerifCap(v Value) int {
+	if s, ok := v.value.(*sliceT); ok {
+		return cap(s.data)
+	}
+	return -1
+}
+
+// VerifBinOp applies one of the Value operator methods by opcode name.
+func VerifBinOp(op string, a, b Value) Value {
+	switch op {
+	case "ADD":
+		return a.opAdd(b)
+	case "SUB":
+		return a.opSub(b)
+	case "MUL":
+		return a.opMul(b)
+	case "DIV":
+		return a.opDiv(b)
+	case "MOD":
+		return a.opMod(b)
+	case "BITLSH":
+		return a.opBitLsh(b)
+	case "BITRSH":
+		return a.opBitRsh(b)
+	case "BITAND":
+		return a.opBitAnd(b)
+	case "BITOR":
+		return a.opBitOr(b)
+	case "BITXOR":
+		return a.opBitXor(b)
+	case "LT":
+		return a.opLt(b)
+	case "LTE":
+		return a.opLte(b)
+	case "EQ":
+		return a.opEq(b)
+	case "NEQ":
+		return a.opNeq(b)
+	}
+	panic("VerifBinOp: unknown op " + op)
+}
+
+// ---- front end -------------------------------------------------------------
+
+// VerifTokens returns "symbol\x00text" per token.
+func VerifTokens(src string) ([]string, error) {
+	toks, err := tokenize("in", src)
+	if err != nil {
+		return nil, err
+	}
+	var res []string
+	for _, t := range toks {
+		res = append(res, t.Symbol+"\x00"+t.Text)
+	}
+	return res, nil
+}
+
+func verifTree(t *token, full bool) string {
+	if t == nil {
+		return "<nil>"
+	}
+	head := t.Text
+	if full {
+		head = fmt.Sprintf("%s|%s|%d:%d", t.Symbol, t.Text, t.Pos.Line, t.Pos.Column)
+	}
+	if len(t.Tokens) == 0 {
+		if full {
+			return "(" + head + ")"
+		}
+		return head
+	}
+	var tt []string
+	for _, v := range t.Tokens {
+		tt = append(tt, verifTree(v, full))
+	}
+	return "(" + head + " " + strings.Join(tt, " ") + ")"
+}
+
+// VerifParse tokenizes and parses src; the tree is rendered like token.String
+// (nil children shown as <nil>); with full=true every node is symbol|text|line:col.
+func VerifParse(src string, full bool) (string, error) {
+	toks, err := tokenize("in", src)
+	if err != nil {
+		return "", fmt.Errorf("error in tokenize: %w", err)
+	}
+	tree, err := parse(toks)
+	if err != nil {
+		return "", fmt.Errorf("error in parse: %w", err)
+	}
+	return verifTree(tree, full), nil
+}
+
+// VerifTreeSort parses src and applies treeSort; returns the symbols and texts
+// of the top-level nodes in sorted order (one "symbol\x00rendering" per node).
+func VerifTreeSort(src string) ([]string, error) {
+	toks, err := tokenize("in", src)
+	if err != nil {
+		return nil, err
+	}
+	tree, err := parse(toks)
+	if err != nil {
+		return nil, err
+	}
+	tree = treeSort(tree)
+	var res []string
+	for _, t := range tree.Tokens {
+		res = append(res, t.Symbol+"\x00"+verifTree(t, false))
+	}
+	return res, nil
+}
+
+// VerifLoadOrder runs the loader (loadPackage / loadFile / loadImports on a
+// parsed top) and returns, per package tree in the order handed to the
+// compiler, the rendering used by pkgList.String.
+func VerifLoadOrder(sys fs.FS, arg string) (res []string, err error) {
+	f := loadPackage
+	if strings.HasSuffix(arg, ".go") {
+		f = loadFile
+	}
+	pkgs, err := f(sys, arg)
+	if err != nil {
+		return nil, err
+	}
+	for _, t := range pkgs {
+		res = append(res, verifTree(t, false))
+	}
+	return res, nil
+}
+
+// ---- compiler --------------------------------------------------------------
+
+type VerifIns struct {
+	Code       string
+	CodeN      int
+	A, B, C    int
+	File, Func string
+	Line, Col  int
+	Text       string // instruction.String rendering
+}
+
+func verifIns(g *lookup, codes []instruction) []VerifIns {
+	res := make([]VerifIns, len(codes))
+	for n, i := range codes {
+		file, fnc, line, col := "", "", 0, 0
+		if !i.Pos.IsZero() {
+			file, fnc, line, col = i.Pos.info(g)
+		}
+		res[n] = VerifIns{Code: i.Code.String(), CodeN: int(i.Code), A: int(i.A), B: int(i.B), C: int(i.C),
+			File: file, Func: fnc, Line: line, Col: col, Text: i.String(g)}
+	}
+	return res
+}
+
+// VerifCompile compiles src as Eval would (package main) with the optimizer
+// flag given, without running it.
+func VerifCompile(vm *VM, src string, optimize bool) (ins []VerifIns, slots int, err error) {
+	toks, err := tokenize("in", src)
+	if err != nil {
+		return nil, 0, fmt.Errorf("error in tokenize: %w", err)
+	}
+	tree, err := parse(toks)
+	if err != nil {
+		return nil, 0, fmt.Errorf("error in parse: %w", err)
+	}
+	cmp := &compiler{Globals: vm.globals, Locals: newLookup(), Imports: map[string]string{},
+		Optimize: optimize, PackageName: "main", ExportName: "main"}
+	codes, slots, err := cmp.run(tree)
+	if err != nil {
+		return nil, 0, fmt.Errorf("error in compile: %w", err)
+	}
+	return verifIns(vm.globals, codes), slots, nil
+}
+
+// VerifOptimize applies doOptimize twice (compiler.optimize) to an arbitrary
+// instruction list given as (code number, A, B, C, pos) tuples.
+func VerifOptimize(in [][5]int, passes int) [][5]int {
+	c := &compiler{Optimize: true}
+	codes := make([]instruction, len(in))
+	for n, i := range in {
+		codes[n] = instruction{Code: code(i[0]), A: reg(i[1]), B: reg(i[2]), C: reg(i[3]), Pos: pos(i[4])}
+	}
+	for p := 0; p < passes; p++ {
+		codes = c.doOptimize(codes)
+	}
+	out := make([][5]int, len(codes))
+	for n, i := range codes {
+		out[n] = [5]int{int(i.Code), int(i.A), int(i.B), int(i.C), int(i.Pos)}
+	}
+	return out
+}
+
+func VerifCodeNames() map[int]string {
+	res := map[int]string{}
+	for k, v := range codeToString {
+		res[int(k)] = v
+	}
+	return res
+}
+
+// VerifEval is VM.Eval with the optimizer flag threaded through (Eval
+// hard-wires true).  Kept textually parallel to VM.Eval.
+func VerifEval(v *VM, sys fs.FS, fname, input string, optimize bool, options ...RunOption) (rets []Value, err error) {
+	var opts runConfig
+	for _, o := range options {
+		o(&opts)
+	}
+	const pkgName = "main"
+	tokens, err := tokenize(fname, input)
+	if err != nil {
+		return nil, fmt.Errorf("error in tokenize: %w", err)
+	}
+	tree, err := parse(tokens)
+	if err != nil {
+		return nil, fmt.Errorf("error in parse: %w", err)
+	}
+	pkgs, err := loadImports(sys, "", tree)
+	if err != nil {
+		return nil, fmt.Errorf("error in loadImports: %w", err)
+	}
+	codes, slots, err := compilePkgs(v.globals, pkgs[:len(pkgs)-1], optimize)
+	if err != nil {
+		return nil, fmt.Errorf("error in compile (imports): %w", err)
+	}
+	_, err = v.run(codes, slots)
+	if err != nil {
+		return nil, fmt.Errorf("error in run (imports): %w", err)
+	}
+	v.treeDump(opts.treeDump, pkgs[len(pkgs)-1:])
+	if opts.evalImports == nil {
+		opts.evalImports = map[string]string{}
+	}
+	cmp := &compiler{
+		Globals:     v.globals,
+		Locals:      newLookup(),
+		Imports:     opts.evalImports,
+		Optimize:    optimize,
+		PackageName: pkgName,
+		ExportName:  pkgName,
+	}
+	codes, slots, err = cmp.run(pkgs[len(pkgs)-1])
+	if err != nil {
+		return nil, fmt.Errorf("error in compile: %w", err)
+	}
+	v.codeDump(opts.codeDump, codes)
+	rets, err = v.run(codes, slots)
+	if err != nil {
+		return nil, fmt.Errorf("error in run: %w", err)
+	}
+	return rets, nil
+}
+
+// VerifLoad is VM.Load with the optimizer flag threaded through; also returns
+// the compiled code.
+func VerifLoad(v *VM, sys fs.FS, arg string, optimize bool) ([]VerifIns, error) {
+	f := loadPackage
+	if strings.HasSuffix(arg, ".go") {
+		f = loadFile
+	}
+	pkgs, err := f(sys, arg)
+	if err != nil {
+		return nil, fmt.Errorf("error in load: %w", err)
+	}
+	codes, slots, err := compilePkgs(v.globals, pkgs, optimize)
+	if err != nil {
+		return nil, fmt.Errorf("error in compile: %w", err)
+	}
+	ins := verifIns(v.globals, codes)
+	rets, err := v.run(codes, slots)
+	if err != nil {
+		return ins, fmt.Errorf("error in run: %w", err)
+	}
+	if len(rets) > 0 {
+		return ins, fmt.Errorf("unexpected returns: %v", rets)
+	}
+	return ins, nil
+}
+
+// VerifExec runs the real exec loop over an instruction list on a given
+// initial stack (slots first) and returns the final stack.
+func VerifExec(v *VM, in [][4]int, stack []Value) (out []Value, n int, err error) {
+	codes := make([]instruction, len(in))
+	for k, i := range in {
+		codes[k] = instruction{Code: code(i[0]), A: reg(i[1]), B: reg(i[2]), C: reg(i[3])}
+	}
+	vm := VM{globals: v.globals, stdout: v.stdout, stack: append([]Value{}, stack...), frame: frame{Codes: codes}}
+	defer func() {
+		if r := recover(); r != nil {
+			n = vm.frame.N
+			err = fmt.Errorf("%v", r)
+		}
+	}()
+	vm.exec()
+	return vm.stack, vm.frame.N, nil
+}
+
+func VerifGlobalIndex(v *VM, key string) int { return v.globals.Index(key) }
+func VerifGlobalKey(v *VM, idx int) string   { return v.globals.Key(idx) }
+func VerifGlobalLen(v *VM) int               { return v.globals.Len() }
+func VerifGlobalRead(v *VM, idx int) Value   { return v.globals.Read(idx) }
+
+// ---- lookup (symbol table) -------------------------------------------------
+
+type VerifLookup struct {
+	l     *lookup
+	scope []int
+}
+
+func VerifNewLookup() *VerifLookup { return &VerifLookup{l: newLookup()} }
+func (l *VerifLookup) Begin()      { l.scope = append(l.scope, l.l.Len()) }
+func (l *VerifLookup) End() {
+	b := l.l.Len()
+	a := l.scope[len(l.scope)-1]
+	l.scope = l.scope[:len(l.scope)-1]
+	l.l.Drop(b - a)
+}
+
+// Declare mirrors compiler.Shadow.
+func (l *VerifLookup) Declare(key string) int {
+	c := &compiler{Locals: l.l, scope: l.scope}
+	return c.Shadow(key)
+}
+func (l *VerifLookup) Index(key string) int   { return l.l.Index(key) }
+func (l *VerifLookup) Exists(key string) bool { return l.l.Exists(key) }
+func (l *VerifLookup) Len() int               { return l.l.Len() }
+func (l *VerifLookup) Cap() int               { return l.l.Cap() }
+func (l *VerifLookup) Keys() map[string]int   { return l.l.keyToIndex }
+func (l *VerifLookup) IndexToKey() []string   { return l.l.indexToKey }
+
+// ---- intMap ----------------------------------------------------------------
+
+type VerifIntMap struct{ m intMap }
+
+func VerifNewIntMap(alloc int) *VerifIntMap    { return &VerifIntMap{m: newIntMap(alloc)} }
+func (m *VerifIntMap) Set(k int, v Value)      { m.m.Set(k, v) }
+func (m *VerifIntMap) Assign(k int, v Value)   { m.m.Assign(k, v) }
+func (m *VerifIntMap) Get(k int) (Value, bool) { return m.m.Get(k) }
+func (m *VerifIntMap) Delete(k int)            { m.m.Delete(k) }
+func (m *VerifIntMap) Len() int                { return m.m.Len() }
+func (m *VerifIntMap) Copy() *VerifIntMap      { return &VerifIntMap{m: m.m.Copy()} }
+func (m *VerifIntMap) Params() (size, mask, min, max, total int) {
+	return m.m.size, m.m.mask, m.m.min, m.m.max, m.m.total
+}
+
+// Dump returns (distance, key, value) per cell.
+func (m *VerifIntMap) Dump() (dist, keys []int, vals []Value) {
+	for _, p := range m.m.pairs {
+		dist = append(dist, p.distance)
+		keys = append(keys, p.key)
+		vals = append(vals, p.value)
+	}
+	return
+}
